@@ -1,19 +1,25 @@
-mod probe;
+mod disp;
 mod sched;
 mod tree;
 
 fn main() {
-    // panics inside the code under test are caught and recorded as outcomes; keep stderr quiet
-    std::panic::set_hook(Box::new(|_| {}));
+    // panics inside the code under test are caught and recorded as outcomes (keep stderr quiet for
+    // those); a panic of the harness itself is reported and ends the process
+    std::panic::set_hook(Box::new(|info| {
+        if !sched::IN_GUARD.load(std::sync::atomic::Ordering::SeqCst) {
+            eprintln!("harness panic: {}", info);
+        }
+    }));
     let a: Vec<String> = std::env::args().collect();
     let arg = |i: usize| a.get(i).cloned().unwrap_or_default();
     let num = |i: usize| arg(i).parse::<u64>().expect("number");
     match arg(1).as_str() {
-        "probe" => probe::run(),
         "tree-replay" => tree::replay(&arg(2), &arg(3)),
         "tree-rand" => tree::random(num(2), num(3), num(4), &arg(5)),
+        "disp-replay" => disp::replay(&arg(2), num(3), num(4), &arg(5)),
+        "disp-rand" => disp::random(&arg(2), num(3), num(4), &arg(5)),
         _ => {
-            eprintln!("usage: obj tree-replay CASES OUT | tree-rand N LEN SEED OUT | ...");
+            eprintln!("usage: obj tree-replay CASES OUT | tree-rand N LEN SEED OUT | disp-replay CASES SCHEDULES SEED OUT | disp-rand CLASS N SEED OUT");
             std::process::exit(2);
         }
     }
